@@ -221,7 +221,10 @@ class C14(Check):
             'rebin_reject also asks for almost integral ratios at those sizes (98 -> 3, 99 -> 2, 3 -> 148).  Lengths 1 and 2, '
             'a few long arrays (200-1000) and, for smooth without truncation, widths beyond the array (every point stays '
             'untouched) are standing members.  '
-            'Option combinations are standing members: a running-median width together with axis (0, 1, -1, None) and/or '
+            'Degenerate shapes with unit dimensions are standing members: running 2-D median on (1,N), (N,1), (1,1) and '
+            'with a width between the two dimensions (no w x w window fits: every pixel untouched), whole-array and axis '
+            'medians on (1,N), (N,1), (1,1), (1,N,1), (N,1,1), (1,1,N) and 3-D arrays, rebin on such shapes with the unit '
+            'axes kept, enlarged or produced by shrinking.  Option combinations are standing members: a running-median width together with axis (0, 1, -1, None) and/or '
             'even (the width wins: running median), axis with and without even (odd lanes and even lanes with even=True '
             'judged), smooth width as int / numpy int / float with and without edge_truncate, sample with every set of '
             'expand/keep/shrink axes.  long_arrays: sizes at the edge of fixed-width integers - rebin of axes 23171..70000 '
@@ -243,6 +246,8 @@ class C14(Check):
                    'clamped tail at or beyond the last input pixel), values between two finite pixels, all-finite blocks and '
                    'blocks with infinities of one sign; positions between or exactly on a finite and a non-finite pixel are '
                    'not judged (the clean code gives NaN there: rebin([1, inf, 3], (6,)) -> [nan, inf, nan, nan, 3, 3])',
+                   'smooth and uniq are 1-D functions in the property; N-d inputs with unit dimensions are not judged for them '
+                   '(clean tree: smooth on shape (1,N) raises IndexError, uniq on (1,N) returns zeros, (N,1) behaves like 1-D)',
                    'NaN is left out of median / uniq inputs (IDL treats NaN as missing in MEDIAN; NaN != NaN makes "equal runs" '
                    'ambiguous) and non-finite values out of interpolating / averaging rebin (0*inf at a sample position is not '
                    'fixed by the property); where they are used the expected value is the IEEE result of the defining formula',
@@ -264,6 +269,13 @@ class C14(Check):
                          'smooth_finite_windows_next_to_nonfinite_values', 'smooth_width_0',
                          'median_inputs_with_infinities', 'run_inputs_with_infinities', 'rebin_sample_nonfinite_inputs',
                          'rebin_sample_bool_inputs', 'flag_given_as_int_or_numpy_bool',
+                         'run2d_single_row_width_ge3_all_pixels_untouched',
+                         'run2d_single_column_width_ge3_all_pixels_untouched', 'run2d_width_between_the_two_dimensions',
+                         'run2d_shape_1x1', 'median_whole_array_with_unit_dimension', 'median_whole_array_3d',
+                         'median_axis_on_array_with_unit_dimension', 'median_axis_along_unit_dimension',
+                         'median_axis_on_3d_array', 'rebin_unit_axis_kept', 'rebin_unit_axis_enlarged',
+                         'rebin_axis_shrunk_to_unit', 'rebin_all_axes_unit_input', 'rebin_single_row_or_column_input',
+                         'rebin_single_row_or_column_input_3d',
                          'median_width_with_axis', 'median_width_with_even', 'median_width_with_axis_and_even',
                          'median_width_with_axis_None', 'median_axis_alone', 'median_axis_with_even',
                          'median_axis_lanes_judged', 'smooth_width_given_as_float', 'smooth_width_given_as_numpy_int',
@@ -450,11 +462,17 @@ class C14(Check):
                     shape = [rng.randint(200, 1000)]
             else:
                 shape = [rng.randint(1, 8), rng.randint(1, 8)]
+                m = rng.random()
+                if m < 0.3:                               # unit dimensions: (1,N) (N,1) (1,1) (1,N,1) (N,1,1) (1,1,N)
+                    L = rng.randint(1, 12)
+                    shape = rng.choice([[1, L], [L, 1], [1, 1], [1, L, 1], [L, 1, 1], [1, 1, L], [1, 1, 1]])
+                elif m < 0.4:
+                    shape = [rng.randint(1, 4), rng.randint(1, 5), rng.randint(1, 4)]
             c = {'fn': 'median', 'dtype': dt, 'shape': shape,
                  'x': _inject(rng, _floats(rng, _prod(shape), dt), ['+inf', '-inf'], 0.15),
                  'even': rng.random() < 0.5, 'flagform': rng.choice(['bool', 'bool', 'int', 'npbool'])}
-            if rng.random() < (0.35 if len(shape) == 2 else 0.08):
-                c['axis'] = rng.choice([0, 1, -1] if len(shape) == 2 else [0, -1])     # axis (with or without even)
+            if rng.random() < (0.35 if len(shape) >= 2 else 0.08):
+                c['axis'] = rng.choice(list(range(len(shape))) + [-1])                 # axis (with or without even)
                 c['evengiven'] = rng.random() < 0.6
             return c
         if cls == 'median_run1d':
@@ -475,6 +493,18 @@ class C14(Check):
                 nr, nc = max(nr, 3), max(nc, 3)
             ws = list(range(1, min(nr, nc) + 1, 2))
             w = ws[-1] if rng.random() < 0.2 else rng.choice(ws)
+            m = rng.random()
+            if m < 0.22:
+                # degenerate images: one row, one column, one pixel.  No w x w neighbourhood fits inside once
+                # w exceeds the unit dimension, so every pixel is an untouched edge of the 2-D filter
+                L = rng.randint(1, 2 * N2)
+                nr, nc = rng.choice([(1, L), (1, L), (L, 1), (1, 1)])
+                ws = list(range(1, max(nr, nc) + 1, 2))
+                w = rng.choice(ws[1:]) if len(ws) > 1 and rng.random() < 0.85 else rng.choice(ws)
+            elif m < 0.32 and nr != nc:
+                # width between the two dimensions (still not exceeding N): again no interior pixel
+                ws = [v for v in range(1, max(nr, nc) + 1, 2) if v > min(nr, nc)]
+                w = rng.choice(ws) if ws else w
             c = {'fn': 'run2d', 'dtype': dt, 'shape': [nr, nc],
                  'x': _inject(rng, _floats(rng, nr * nc, dt), ['+inf', '-inf'], 0.15), 'w': w}
             return self._median_opts(c, rng, [0, 1, -1, None])
@@ -720,10 +750,16 @@ class C14(Check):
             if modes[k] == 'K':
                 modes = modes[:k] + rng.choice('ES') + modes[k + 1:]
         cap_out = {1: 4000, 2: 12000, 3: 16000}[len(modes)]
+        # degenerate shapes: every axis but (at most) one has a unit base -> (1,N) (N,1) (1,1) (1,N,1) ..., with the
+        # unit axes kept (1 -> 1), enlarged (1 -> f) or produced by shrinking (f -> 1) as the mode says
+        degenerate = len(modes) > 1 and rng.random() < 0.15
+        longax = rng.choice(list(range(len(modes))) + [-1])           # the one axis allowed to be long (-1: none)
         for attempt in range(200):
             shape, d = [], []
-            for m in modes:
+            for ax, m in enumerate(modes):
                 base = rng.randint(1, 6 if len(modes) > 1 else 24)
+                if degenerate and ax != longax:
+                    base = 1
                 if m == 'E':
                     f = self._factor(rng) if attempt < 100 else rng.randint(2, 4)
                     shape.append(base)
@@ -965,6 +1001,10 @@ class C14(Check):
             out.count('median_inputs_with_infinities')
         if x0.size <= 2:
             out.count('median_length_1_or_2')
+        if x0.ndim >= 2 and 1 in x0.shape:
+            out.count('median_whole_array_with_unit_dimension')
+        if x0.ndim == 3:
+            out.count('median_whole_array_3d')
         if x0.size >= 200:
             out.count('median_length_ge_200')
         if how == 'even-mean' and (exp != exp or abs(exp) == float('inf')):
@@ -1050,6 +1090,12 @@ class C14(Check):
         n = lanes.shape[-1]
         evenflag = bool(case['even']) and bool(case.get('evengiven'))
         out.count('median_axis_with_even' if case.get('evengiven') else 'median_axis_alone')
+        if 1 in x0.shape and x0.ndim >= 2:
+            out.count('median_axis_on_array_with_unit_dimension')
+        if n == 1:
+            out.count('median_axis_along_unit_dimension')
+        if x0.ndim == 3:
+            out.count('median_axis_on_3d_array')
         if n % 2 == 0 and not evenflag:
             out.count('median_axis_even_count_without_even_not_judged')
             out.nontrivial = False
@@ -1119,11 +1165,21 @@ class C14(Check):
             out.count('run_inputs_with_infinities')
         if case['shape'][0] != case['shape'][1] and case['w'] >= 3:
             out.count('run2d_nonsquare_width_ge3')
+        nr_, nc_ = case['shape']
+        if case['w'] >= 3:
+            if nr_ == 1 and nc_ >= case['w']:
+                out.count('run2d_single_row_width_ge3_all_pixels_untouched')
+            if nc_ == 1 and nr_ >= case['w']:
+                out.count('run2d_single_column_width_ge3_all_pixels_untouched')
+            if min(nr_, nc_) > 1 and case['w'] > min(nr_, nc_):
+                out.count('run2d_width_between_the_two_dimensions')
+        if nr_ == 1 and nc_ == 1:
+            out.count('run2d_shape_1x1')
         if not x.flags.c_contiguous and case['w'] >= 3:
             out.count('run2d_noncontiguous_interior_points', n)
         if lay != 'contig':
             self._consistent(out, 'run2d', lay, r, self.P.median(x0.copy(), width=case['w'], **kw))
-        out.nontrivial = n > 0 and x0.size >= 2
+        out.nontrivial = (n > 0 or case['w'] >= 3) and x0.size >= 2     # all-edge images decide the untouched clause
         out.info['shape'], out.info['w'], out.info['layout'] = case['shape'], case['w'], lay
 
     def _run_uniq(self, case, out):
@@ -1317,6 +1373,17 @@ class C14(Check):
         out.count('rebin_combo_' + modes)
         if 'E' in modes and 'S' in modes:
             out.count('rebin_mixed_expand_and_shrink')
+        if x0.ndim >= 2:
+            for k in range(x0.ndim):
+                if x0.shape[k] == 1:
+                    out.count('rebin_unit_axis_kept' if d[k] == 1 else 'rebin_unit_axis_enlarged')
+                elif d[k] == 1:
+                    out.count('rebin_axis_shrunk_to_unit')
+            nunit = sum(1 for v in x0.shape if v == 1)
+            if nunit == x0.ndim:
+                out.count('rebin_all_axes_unit_input')
+            elif nunit == x0.ndim - 1:
+                out.count('rebin_single_row_or_column_input' + ('_3d' if x0.ndim == 3 else ''))
         for k in range(x0.ndim):
             big, small = max(d[k], x0.shape[k]), min(d[k], x0.shape[k])
             if big // small >= 49:
